@@ -138,8 +138,8 @@ def build_converters() -> List[Ref]:
 def run(ctx: Ctx) -> None:
     refs = build_converters()
     by_id = {id(r.conv): r for r in refs}
-    n_rnd = 4 if ctx.quick else 8
-    n_unreg = 400 if ctx.quick else 2000
+    n_rnd = 4 if ctx.quick else 48
+    n_unreg = 400 if ctx.quick else 20000
     with Taps(ctx) as taps:
         install(taps, ctx, by_id)
         for ci, ref in enumerate(refs):
